@@ -3,7 +3,7 @@ from __future__ import annotations
 
 import itertools
 
-from .common import Suite, errname, merge
+from .common import Oracle, Suite, errname, merge
 
 GEN_UNITS = ["Totp", "PyUnicode", "TotpAll"]
 LEAN_TARGETS = ["PasslibVerif.Props.C14"]
@@ -115,7 +115,10 @@ def correspond(ctx):
 
         line = "totp hist 6 %d %s %s" % (p, "|".join(table), ";".join(f"{tok_arg(a[0])}/{a[1]}/{a[2]}/{a[3]}" for a in attempts))
         s_hist.add(line, run, "hist")
-    return merge(s_small, s_rand, s_norm, s_hist, exhaustive=False)
+    o_tok = Oracle(ctx, "codes-as-typed")
+    for tag, inp, ok, obs, exp in token_form_cases(rng):
+        o_tok.check(tag, ok, inp, obs, exp)
+    return merge(s_small, s_rand, s_norm, s_hist, o_tok, exhaustive=False)
 
 
 # ------------------------------------------------------------------------------------------
@@ -173,15 +176,42 @@ def search(ctx, broken, seeds):
             last = m.counter
         if any(b <= a for a, b in zip(acc, acc[1:])):
             return {"input": {"op": "history", "table": table, "period": p, "attempts": hist}, "observed": acc, "expected": "strictly increasing accepted counters"}
-    for s, d in (("12345", 6), ("1234567", 6), ("12345a", 6), ("", 6)):
-        try:
-            mk_totp(d, 30).match(s, 1000)
-            return {"input": {"op": "malformed", "token": s, "digits": d}, "observed": "no error", "expected": "MalformedTokenError"}
-        except exc.MalformedTokenError:
-            pass
-        except Exception as e:  # noqa: BLE001
-            return {"input": {"op": "malformed", "token": s, "digits": d}, "observed": errname(e), "expected": "MalformedTokenError"}
+    for tag, inp, ok, obs, exp in token_form_cases(rng):
+        if not ok:
+            return {"input": inp, "observed": obs, "expected": exp, "check": tag}
     return None
+
+
+def token_form_cases(rng):
+    """the code as typed: a malformed code is reported as malformed whatever the window / last_counter say (even when there is nothing left to
+    search); a well-formed code decorated with blanks, dashes or Unicode white space is the same code; yields (tag, input, ok, observed, expected)"""
+    from passlib import exc
+
+    t = mk_totp(6, 30)
+    good = t.generate(1000).token
+    for tok in ("12345", "1234567", "12345a", "", "      ", "12 34", 12345678, 1234567, 1.5, None, b"12345", ["123456"]):
+        for kw in ({}, {"last_counter": 40, "window": 30}, {"last_counter": 10 ** 6}, {"window": 0, "last_counter": 33}, {"skew": -5000, "window": 0}):
+            inp = {"op": "malformed", "token": repr(tok), "time": 1000, "kwds": kw}
+            try:
+                t.match(tok, 1000, **kw)
+                got = "accepted"
+            except exc.MalformedTokenError:
+                got = "MalformedTokenError"
+            except Exception as e:  # noqa: BLE001
+                got = errname(e)
+            want = "MalformedTokenError" if not (tok is None or isinstance(tok, (float, list))) else got
+            if isinstance(tok, (float, list)) or tok is None:
+                want = "TypeError" if got not in ("MalformedTokenError",) else got
+            yield ("malformed-reported-as-malformed", inp, got == want or (want == "TypeError" and got in ("TypeError", "ExpectedTypeError", "MalformedTokenError")), got, want)
+    for deco in (" ", "-", "\t", "\n", "\xa0", "\u2002", "\u2009", "\u202f", "\u3000", "\x85", "\u2028", "  -  "):
+        for form in (good[:3] + deco + good[3:], deco + good, good + deco, deco.join(good)):
+            inp = {"op": "decorated", "token": form, "time": 1000}
+            try:
+                m = t.match(form, 1000)
+                got = ("accepted", m.counter)
+            except Exception as e:  # noqa: BLE001
+                got = (errname(e), None)
+            yield ("decorated-code-is-the-same-code", inp, got == ("accepted", 33), got, ("accepted", 33))
 
 
 def replay(ctx, inp):
